@@ -266,5 +266,5 @@ Definition sane (pagesize : Z) (s : settings) : bool :=
   (sys_page_size s =? pagesize) &&
   (huge_page_size s <=? 1073741824) &&
   (mem_page_size s <=? 67108864) && (mem_sp_size s <=? 268435456) &&
-  (key_table_size s <=? 65536) && (mem_max_stacks s <=? 65536) && (mem_max_descs s <=? 1048576) &&
+  (key_table_size s <=? 65536) && (mem_max_stacks s <=? 4096) && (mem_max_descs s <=? 65536) &&
   (sched_sleep_nsec s <=? 1000000) && (sched_event_freq s <=? 4096) && negb (print_config s).
